@@ -133,6 +133,48 @@ func (w *vfWorld) signRoleCert(cn string, extValue []byte) *x509.Certificate {
 	return c
 }
 
+// signOperatorCert: an IP-restricted certificate issued by the OPERATOR's own client CA (client_ca_filename), which
+// checkAuth trusts as well, with a lifetime of the operator's choosing
+func (w *vfWorld) signOperatorCert(cn string, extValue []byte, life time.Duration) *x509.Certificate {
+	parent := vfCertFixture("adminCA.pem")
+	caKey, err := x509.ParsePKCS1PrivateKey(vfPEMFile("adminCA.key"))
+	if err != nil {
+		return nil
+	}
+	key := vfKey("user_p256_3")
+	serial, _ := rand.Int(rand.Reader, new(big.Int).Lsh(big.NewInt(1), 100))
+	tmpl := x509.Certificate{SerialNumber: serial, Subject: pkix.Name{CommonName: cn}, NotBefore: time.Now().Add(-time.Minute), NotAfter: time.Now().Add(life),
+		KeyUsage: x509.KeyUsageDigitalSignature, ExtKeyUsage: []x509.ExtKeyUsage{x509.ExtKeyUsageClientAuth}, BasicConstraintsValid: true,
+		ExtraExtensions: []pkix.Extension{{Id: vfOidIPDelegation, Critical: false, Value: extValue}}}
+	der, err := x509.CreateCertificate(rand.Reader, &tmpl, parent, key.pub(), caKey)
+	if err != nil {
+		return nil
+	}
+	c, err := x509.ParseCertificate(der)
+	if err != nil {
+		return nil
+	}
+	return c
+}
+
+func init() {
+	// the operator's CA issues an automation certificate (10.20.0.0/16) valid for D; it becomes the newest ipcert artefact
+	vfExtraOps["opcert"] = func(w *vfWorld, st vfStep, p *vfPrepared) *vfPrepared {
+		p.env = func() {
+			life, err := time.ParseDuration(st.D)
+			if err != nil {
+				life = 90 * 24 * time.Hour
+			}
+			ext, nets := vfDamagedExtension("")
+			if c := w.signOperatorCert(st.User, ext, life); c != nil {
+				w.model.addArt(&vfArtefact{Kind: "ipcert", Subject: st.User, Cert: c, AuthAt: time.Now(), Exp: c.NotAfter, Nets: nets})
+				w.probe("operator-issued-ipcert")
+			}
+		}
+		return p
+	}
+}
+
 type vfFam struct {
 	Family []byte
 	Addrs  []asn1.BitString
